@@ -320,7 +320,46 @@ def _progress_flag(loop, f, idx, pm):
     return None
 
 
+def _state_loop_normal_form(loop, f):
+    """`X = C; while X == C: body`  (C an enum member / constant, X assigned C directly in front of the loop)  is  `while True: body; if X != C: break`"""
+    import copy
+    t = loop.test
+    if not (isinstance(t, ast.Compare) and len(t.ops) == 1 and isinstance(t.ops[0], ast.Eq) and isinstance(t.left, ast.Name)
+            and isinstance(t.comparators[0], (ast.Attribute, ast.Constant))):
+        return None
+    pm = parent_map(f.node)
+    par = pm.get(loop)
+    prev = None
+    for fld in ("body", "orelse"):
+        blk = getattr(par, fld, None)
+        if isinstance(blk, list) and loop in blk and blk.index(loop) > 0:
+            prev = blk[blk.index(loop) - 1]
+    if not (isinstance(prev, ast.Assign) and any(u(t_) == t.left.id for t_ in prev.targets) and u(prev.value) == u(t.comparators[0])):
+        return None
+    fnode = copy.deepcopy(f.node)
+    target = None
+    for n in ast.walk(fnode):
+        if isinstance(n, ast.While) and n.lineno == loop.lineno and n.col_offset == loop.col_offset:
+            target = n
+    if target is None or target.orelse:
+        return None
+    exit_if = ast.If(test=ast.Compare(left=copy.deepcopy(t.left), ops=[ast.NotEq()], comparators=[copy.deepcopy(t.comparators[0])]), body=[ast.Break()], orelse=[])
+    last = target.body[-1]
+    ast.copy_location(exit_if, last)
+    for n in ast.walk(exit_if):
+        ast.copy_location(n, last)
+    target.body.append(exit_if)
+    target.test = ast.copy_location(ast.Constant(value=True), target.test)
+    g = copy.copy(f)
+    g.node = fnode
+    return target, g
+
+
 def classify_while(loop, f, idx):
+    sf = _state_loop_normal_form(loop, f)
+    if sf is not None:
+        cls_, why = classify_while(sf[0], sf[1], idx)
+        return cls_, ("(`while %s` after `%s = %s` read as `while True: ... if %s: break`) " % (u(loop.test), loop.test.left.id, u(loop.test.comparators[0]), "not " + u(loop.test))) + why
     nf = _flag_loop_normal_form(loop, f)
     if nf is not None:
         cls_, why = classify_while(nf[0], nf[1], idx)
